@@ -8,6 +8,7 @@ import (
 	"crypto/sha256"
 	"encoding/base64"
 	"encoding/json"
+	"errors"
 	"fmt"
 	"io"
 	"math/rand"
@@ -32,6 +33,7 @@ import (
 	"github.com/nuts-foundation/nuts-node/vcr"
 	"github.com/nuts-foundation/nuts-node/vcr/pe"
 	"github.com/nuts-foundation/nuts-node/vcr/revocation"
+	vcrTypes "github.com/nuts-foundation/nuts-node/vcr/types"
 	"github.com/nuts-foundation/nuts-node/vdr/didsubject"
 	"github.com/sirupsen/logrus"
 	"gorm.io/gorm"
@@ -632,7 +634,16 @@ func registerNodeEntries(w *world, needed map[string]bool) {
 				fmt.Sscan(string(parts[1]), &servedStatus)
 				served = parts[2]
 			}
-			return errResult(sl.Verify(*probeVC))
+			err := sl.Verify(*probeVC)
+			if err == nil {
+				return true, ""
+			}
+			// the INPUT is the status list credential: it is refused iff fetching/verifying it failed ("status list: ..." errors).
+			// Later errors (purpose of the probe differs, index outside the list) concern the probe credential; the list was admitted.
+			if strings.HasPrefix(err.Error(), "status list: ") && !errors.Is(err, vcrTypes.ErrRevoked) {
+				return false, err.Error()
+			}
+			return true, "list admitted; probe: " + err.Error()
 		}})
 	// a status list accepted earlier is cached in the table; forget it so that the next call downloads again
 	w.eps["revocation.StatusList2021"].reset = func() { env.db.Exec("DELETE FROM status_list_credential") }
